@@ -62,7 +62,7 @@ def gen_op(rng, force_adjacent=False):
         return dict(base, op='bind', gi=P(), how=rng.choice(['symbol', 'target', 'retarget']))
     if rng.random() < 0.2:
         return dict(base, op='geom', gi=P(), how='attr')
-    return dict(base, op='attr', what=rng.choice(['light', 'camera', 'material', 'effect', 'effect', 'image', 'asset']))
+    return dict(base, op='attr', what=rng.choice(['light', 'camera', 'material', 'effect', 'effect', 'image', 'asset', 'unset', 'unset']))
 
 
 def gen_cycle(rng):
@@ -108,7 +108,7 @@ def gen_case(rng, maxlen, files_fraction=0.2):
         base = {'kind': 'xmldoc', 'seed': rng.randrange(1 << 30), 'size': rng.choice([0, 1, 1, 2])}
     else:
         base = {'kind': 'gen', 'seed': rng.randrange(1 << 30), 'size': rng.choice([1, 2, 2, 3])}
-        if rng.random() < 0.3:
+        if rng.random() < 0.35:
             # loaded with the members of its libraries spread over two library elements of a kind
             base['split'] = rng.randrange(1 << 30)
             base['size'] = rng.choice([2, 3, 4])
@@ -120,6 +120,24 @@ def gen_case(rng, maxlen, files_fraction=0.2):
     if rng.random() < 0.35:
         at = rng.randint(0, len(ops))
         ops[at:at] = gen_cycle(rng)
+    if base['kind'] != 'gen' or base.get('split') is not None:
+        # loaded documents: removal edits (every optional value of one object, or of all objects, goes
+        # away), before or after an intermediate save
+        if rng.random() < 0.5:
+            un = {'op': 'attr', 'what': 'unset', 'all': rng.random() < 0.6, 'r': rng.randrange(1 << 30),
+                  'pos': rng.randrange(64), 'pos2': rng.randrange(64), 'pos3': rng.randrange(64), 'n': 1}
+            at = rng.randint(0, len(ops))
+            ops[at:at] = [{'op': 'save'}, un] if rng.random() < 0.5 else [un]
+    if base.get('split') is not None and rng.random() < 0.6:
+        # a document loaded with two library elements of a kind: whole lists emptied (and refilled),
+        # so that the last write happens in each of those states
+        tail = []
+        for lib in rng.sample(LIBNAMES, 2):
+            tail.append({'op': 'lib', 'lib': lib, 'how': 'clear', 'r': rng.randrange(1 << 30), 'pos': 0, 'pos2': 0, 'pos3': 0, 'n': 1})
+        if rng.random() < 0.5:
+            tail.append({'op': rng.choice(['save', 'write'])})
+            tail.append({'op': 'lib', 'lib': tail[0]['lib'], 'how': 'fill', 'r': rng.randrange(1 << 30), 'pos': 0, 'pos2': 0, 'pos3': 0, 'n': 2})
+        ops.extend(tail)
     if base['kind'] == 'gen' or rng.random() < 0.5:
         # loaded/constructed documents usually start from a saved state
         ops.insert(0, {'op': 'save'}) if rng.random() < 0.5 else None
